@@ -352,7 +352,10 @@ fn make_new_variant_iter<'a>(
     let (bytes, sig) = crate::wire::util::unmarshal_signature(&source[*offset..])?;
     debug_assert_eq!(bytes, 4);
 
-    let sig = signature::Type::parse_description(sig)?.remove(0);
+    let sig = signature::Type::parse_description(sig)?
+        .into_iter()
+        .next()
+        .ok_or(UnmarshalError::WrongSignature)?;
 
     // move offset
     let padding = crate::wire::util::align_offset(sig.get_alignment(), source, *offset)?;
